@@ -1524,3 +1524,129 @@ def tf_correspondence(out, ctx, jobs):
                 if not tree.close(v, float(arr[j]), mag):
                     disagree(out, net, pv, sv, f"{tag}: result {n}[{j}] = {float(arr[j])!r}, model {v!r}")
                     break
+
+
+# ---------------------------------------------------------------------------
+# C12: purity and repeatability of stepping
+def elem_params(R):
+    snap = {}
+    for kind, d in (("l", R.links), ("o", R.origins), ("d", R.dests)):
+        for i, el in d.items():
+            vals = {}
+            for cls in type(el).__mro__:
+                for a in getattr(cls, "__slots__", ()):
+                    if a in ("states", "next_states", "actions", "disturbances"):
+                        continue
+                    if isinstance(a, str) and hasattr(el, a):
+                        vals[a] = repr(getattr(el, a))
+            snap[(kind, i)] = vals
+    return snap
+
+
+def same_float(a, b_):
+    return a == b_ or (math.isnan(a) and math.isnan(b_))
+
+
+def run_C12(ctx):
+    import casadi as cs
+    from harness import p_life
+    from sym_metanet import engines
+    out = new_outcome()
+    distinct = set()
+    quick = ctx["tier"] == "quick"
+    rng = ctx["rng"]
+    # model vs implementation: the lifecycle histories (C19's slice), a smaller batch
+    life = p_life.run_C19(dict(ctx, tier="quick"))
+    out["disagreements"] += life["disagreements"]
+    out["coverage"]["evaluations"] += life["coverage"]["evaluations"]
+    cases = gen_cases(ctx, 8 if quick else 100)
+    data = correspondence(out, ctx, cases, engines=("np",), per_case_points=1, sym_types=("SX",), distinct=distinct)
+    for ci, (net, pv, pts, mtree, stree, run) in enumerate(data):
+        keys = state_keys(net)
+        sv = pts[0][1]
+        tk = topo_key(net)
+        sel_before = engines.get_current_engine()
+        # reference: a brand-new network object stepped once
+        try:
+            ref = Runner(net, pv).numpy_step(sv)
+        except Exception:
+            continue
+        R = run.R
+        for shape in ("vec1", "zerod"):
+            ic = R.init_conditions(sv, shape)
+            arrays = [(el, nm, a) for el, d in ic.items() for nm, a in d.items() if isinstance(a, np.ndarray)]
+            before = [(a.tobytes(), a.shape) for (_, _, a) in arrays]
+            ids = {id(el): {nm: id(a) for nm, a in d.items()} for el, d in ic.items()}
+            keys_before = {id(el): list(d) for el, d in ic.items()}
+            params_before = elem_params(R)
+            for (_, _, a) in arrays:
+                a.flags.writeable = False
+            opts = {k: rng.random() < 0.3 for k in nets.OPT_KW}
+            try:
+                with np.errstate(all="ignore"):
+                    R.net.step(init_conditions=ic, engine=impl.NpEngine(), **nets.opts_kwargs(opts), **R.step_kwargs())
+            except ValueError as ex:
+                if "read-only" in str(ex):
+                    fail(out, f"C12:{tk}:inplace", net, pv, sv, f"NumPy step ({shape} scalars, options {[k for k, v in opts.items() if v]}) "
+                         f"writes into an array supplied by the caller: {ex!s:.150}", opts=opts, scalar_shape=shape)
+                else:
+                    fail(out, f"C12:{tk}:raise", net, pv, sv, f"NumPy step raised {ex!r:.200}", opts=opts)
+                continue
+            except Exception as ex:
+                fail(out, f"C12:{tk}:raise", net, pv, sv, f"NumPy step with write-protected inputs raised {ex!r:.200}", opts=opts)
+                continue
+            out["coverage"]["evaluations"] += 1
+            for (el, nm, a), (bts, shp) in zip(arrays, before):
+                if a.tobytes() != bts or a.shape != shp:
+                    fail(out, f"C12:{tk}:modified", net, pv, sv, f"supplied array {nm} of {el.name} was modified by the step", opts=opts)
+            for el, d in ic.items():
+                if list(d) != keys_before[id(el)] or any(id(d[k]) != ids[id(el)][k] for k in d):
+                    fail(out, f"C12:{tk}:dict", net, pv, sv, f"the supplied dictionary of {el.name} was modified", opts=opts)
+            if elem_params(R) != params_before:
+                fail(out, f"C12:{tk}:params", net, pv, sv, "element parameters were modified by the step", opts=opts)
+        # repeatability on the used objects: unrelated steps / compilations in between
+        try:
+            sv2 = dyn.admissible_state(net, pv, rng, "boundary")
+            run.numpy_step(sv2, {k: rng.random() < 0.5 for k in nets.OPT_KW})
+            for sym in ("SX", "MX") if not quick or ci % 2 == 0 else ("SX",):
+                F, _ = run.function(sym, rng.choice([0, 1, 2]), bool(ci % 2), {k: rng.random() < 0.5 for k in nets.OPT_KW})
+            again = run.numpy_step(sv)
+            out["coverage"]["evaluations"] += 1
+            for k in keys:
+                if not same_float(again[k], ref[k]):
+                    fail(out, f"C12:{tk}:repeat", net, pv, sv, f"stepping again from the same values after unrelated steps and compilations gives "
+                         f"{k} = {again[k]!r}; a fresh network gives {ref[k]!r}")
+                    break
+            # the CasADi function of the used objects equals that of fresh objects
+            F1, _ = run.function("SX", 0, False)
+            F2, _ = Runner(net, pv).function("SX", 0, False)
+            v1, p1 = run.call(F1, 0, False, sv)
+            v2, p2 = Runner(net, pv).call(F2, 0, False, sv)
+            if v1 is not None and v2 is not None:
+                for k in keys:
+                    if not same_float(v1[k], v2[k]) and not tree.close(v1[k], v2[k], max(abs(v2[k]), 1.0)):
+                        fail(out, f"C12:{tk}:repeat-cs", net, pv, sv, f"function compiled on re-used objects gives {k} = {v1[k]!r}, on fresh objects {v2[k]!r}")
+                        break
+        except Exception as ex:
+            fail(out, f"C12:{tk}:repeat-raise", net, pv, sv, f"re-using the network objects raised {ex!r:.300}")
+        # user symbols supplied as initial conditions are not altered
+        try:
+            Rs = impl.Real(net, pv)
+            ic = {}
+            for l, v in net.links.items():
+                ic[Rs.links[l]] = {"rho": cs.SX.sym(f"urho{l}", v["N"], 1), "v": cs.SX.sym(f"uv{l}", v["N"], 1)}
+            snap = {(id(el), k): str(x) for el, d in ic.items() for k, x in d.items()}
+            Rs.net.step(init_conditions=ic, engine=impl.CsEngine("SX"), **Rs.step_kwargs())
+            for el, d in ic.items():
+                for k, x in d.items():
+                    if str(x) != snap[(id(el), k)]:
+                        fail(out, f"C12:{tk}:symbols", net, pv, sv, f"supplied symbol {k} of {el.name} was altered")
+        except Exception as ex:
+            out["info"].append(f"user-symbol step raised {ex!r:.200} on {net.family}")
+        if engines.get_current_engine() is not sel_before:
+            fail(out, f"C12:{tk}:selection", net, pv, sv, "stepping with an explicit engine changed the selected engine")
+            engines.use(sel_before)
+        distinct.add(tk)
+    return finish(out, distinct, data, RULE + "; caller arrays write-protected and hashed, dictionaries and element parameters "
+                  "snapshotted; the same objects re-stepped after unrelated steps (other values, options), CasADi SX/MX "
+                  "steps and compilations, and compared bit for bit with a fresh network; user symbols; selection untouched")
